@@ -1956,6 +1956,10 @@ func replay(args []string) {
 		libReplay(p, reqs)
 		return
 	}
+	if c.Input.Mode == "share" || c.Mode == "share" {
+		shareReplay(p, reqs)
+		return
+	}
 	o := &orun{p: p, dist: map[string]int{}, nontr: map[string]bool{}}
 	o.history(nil, reqs, len(reqs))
 	for _, l := range reqs {
